@@ -82,7 +82,7 @@ func (s *c34Stream) Read(p []byte) (int, error) {
 	if s.off == 0 && s.fault != "none" && !s.fired && s.idx == s.at {
 		s.fired = true
 		if s.fault == "panic" {
-			panic("c34: injected stream read panic")
+			panic(c34InjectedPanic)
 		}
 		return 0, errC34Read
 	}
@@ -246,16 +246,42 @@ func (m *c34Msg) release() {
 
 // guarded runs f and reports a panic instead of propagating it.
 func c34Guarded(f func()) (p any) {
-	defer func() { p = recover() }()
+	defer func() {
+		p = recover()
+		if p != nil {
+			if s, ok := p.(string); !ok || s != c34InjectedPanic {
+				panic(p) // not ours: let c34Exec classify it with the original stack still above us
+			}
+		}
+	}()
 	f()
 	return nil
 }
 
-func c34Exec(c *c34Case) *c34Out {
-	o := &c34Out{}
+const c34InjectedPanic = "c34: injected stream read panic"
+
+// c34Exec runs one case. A panic that is not the harness's own injected stream panic comes from the code under test
+// and is a finding of its own class; the case ends there.
+func c34Exec(c *c34Case) (o *c34Out) {
+	o = &c34Out{}
+	defer func() {
+		if p := recover(); p != nil {
+			if s, ok := p.(string); ok && s == c34InjectedPanic && c.Fault == "panic" {
+				o.panicked = true // the injected panic propagated out of a call the harness does not guard
+				return
+			}
+			class, detail := c03PanicClass(p)
+			o.add(class, "the library panicked in a case without a stream panic in its fault plan: %s", detail)
+		}
+	}()
+	c34ExecInner(c, o)
+	return o
+}
+
+func c34ExecInner(c *c34Case, o *c34Out) {
 	if c.Kind == "writer" {
 		c34ExecWriter(c, o)
-		return o
+		return
 	}
 	st := c34NewStream(c)
 	var rd io.Reader = st
@@ -356,7 +382,6 @@ func c34Exec(c *c34Case) *c34Out {
 		}
 		o.add(sym+":"+c.Path, "stream has %d Close calls at the end of path %q (fault %s)", n, c.Path, c.Fault)
 	}
-	return o
 }
 
 // c34Write performs the "write" step and evaluates the wire.
